@@ -1267,5 +1267,43 @@ Section Sound.
         + rewrite count_clear_same, state_clear_same. split; [lia|]. rewrite Hsucc. destruct (forced o f); left; reflexivity.
         + pose proof (count_clear_le (m_fields md) slots oi0 oi). split; [lia|]. rewrite state_clear_other by exact Hne. exact R.
     Qed.
+
+    Lemma fields_loop_sound : forall fs fas pre pre_as slots tp slots' tp',
+      m_fields md = pre ++ fs -> a_fields ma = pre_as ++ fas -> length pre_as = length pre ->
+      fields_loop vr o sch ann child depth md fs fas (length pre) slots tp = Ok (slots', tp') ->
+      finv pre slots -> finv (m_fields md) slots'.
+    Proof.
+      induction fs as [|f fs IH]; intros fas pre pre_as slots tp slots' tp' Efs Efas Hl.
+      - rewrite app_nil_r in Efs. cbn [fields_loop]. intros E. injection E as <- <-. rewrite Efs. auto.
+      - destruct fas as [|fa fas].
+        { exfalso. rewrite Efs, Efas, !app_length in Hlenfa. cbn [length] in Hlenfa. lia. }
+        assert (Hf : nth_error (m_fields md) (length pre) = Some f).
+        { rewrite Efs, nth_error_app2, Nat.sub_diag by lia. reflexivity. }
+        assert (Hfa : nth_error (a_fields ma) (length pre) = Some fa).
+        { rewrite Efas, nth_error_app2, Hl, Nat.sub_diag by lia. reflexivity. }
+        destruct (Hfacts _ _ _ Hf Hfa) as [Hff Hmb].
+        assert (Enext : length (pre ++ [f]) = S (length pre)) by (rewrite app_length; cbn [length]; lia).
+        assert (Efs' : m_fields md = (pre ++ [f]) ++ fs) by (rewrite <- app_assoc; exact Efs).
+        assert (Efas' : a_fields ma = (pre_as ++ [fa]) ++ fas) by (rewrite <- app_assoc; exact Efas).
+        assert (Hl' : length (pre_as ++ [fa]) = length (pre ++ [f])) by (rewrite !app_length; cbn [length]; lia).
+        cbn [fields_loop]. destruct (draw_bool tp) as [b t1].
+        destruct (negb b && msg_kind f && negb (o_disallow_nil o)) eqn:Eskip.
+        + intros E Hinv. rewrite <- Enext in E. eapply IH; eauto. eapply finv_skip; eauto.
+          unfold forced. apply andb_true_iff in Eskip. destruct Eskip as [Ea Eb]. apply andb_true_iff in Ea. destruct Ea as [_ Ea].
+          rewrite Ea, Eb. reflexivity.
+        + destruct (set_field_value vr o sch ann child depth md (length pre) f fa slots t1) as [[slots1 t2]| | |] eqn:Esf; try discriminate.
+          intros E Hinv. rewrite <- Enext in E. eapply IH; eauto.
+          pose proof Hinv as (L & Hsl & _).
+          assert (Hcs : cslot o ann (SD (12 - S depth)) (12 - S depth) q f fa (nth (length pre) slots VNil)).
+          { assert (Hlt : (length pre < length slots)%nat) by (rewrite L; apply nth_error_Some; congruence).
+            destruct (nth_error slots (length pre)) as [s|] eqn:En; [|apply nth_error_None in En; lia].
+            rewrite (RoundTrip.nth_error_nth' _ _ _ VNil En). apply (Hsl _ _ _ _ Hf Hfa En). lia. }
+          pose proof (sfv_sound child depth md (length pre) f fa slots t1 slots1 t2 q Hc1 Hc2 Hd Hff Hcs Esf) as H.
+          destruct (f_shape f) as [|packed|oi0|kk] eqn:Es.
+          * destruct H as (v & -> & Hv). eapply finv_set; eauto. intros j Hj. rewrite Es in Hj. discriminate.
+          * destruct H as (v & -> & Hv). eapply finv_set; eauto. intros j Hj. rewrite Es in Hj. discriminate.
+          * destruct H as [(e & -> & Hv & Hsu)|(-> & Hsu)]; [eapply finv_member_some|eapply finv_member_none]; eauto.
+          * destruct H as (v & -> & Hv). eapply finv_set; eauto. intros j Hj. rewrite Es in Hj. discriminate.
+    Qed.
   End Fields.
 End Sound.
